@@ -128,6 +128,13 @@ type verifC07Widths struct {
 	I2 int    `vgirpc:"i2"`
 }
 
+// two columns of one type: a swap of them changes neither the per-position types nor the set of names
+type verifC07Pair struct {
+	Lo    int64  `vgirpc:"lo"`
+	Hi    int64  `vgirpc:"hi"`
+	Label string `vgirpc:"label"`
+}
+
 func verifC07Batch(schema *arrow.Schema, cols []arrow.Array) *verifBatch {
 	return &verifBatch{schema: schema, rows: 1, refs: 1, cols: cols, tag: 1}
 }
@@ -284,15 +291,18 @@ func verifH_C07_values_and_defaults() {
 //verif:stub (*github.com/apache/arrow-go/v18/arrow/array.Boolean).IsNull = verifC07NullBool
 //verif:stub (*github.com/apache/arrow-go/v18/arrow/array.String).Value = verifC07StrValue
 //verif:stub (*github.com/apache/arrow-go/v18/arrow/array.Boolean).Value = verifC07BoolValue
-//verif:bound declared struct {n int64, s string, b bool} (or its optional-pointer twin); the batch schema is the declared one, or reordered (any of the 5 other permutations), narrowed (any one column dropped, or all), widened (an extra column at either end), type-perturbed (int64->int32, utf8->int64, bool->utf8), nullability flipped on any one column, one column renamed (ANY 1-byte name), or differing only in schema metadata; cells concrete
+//verif:bound declared struct {n int64, s string, b bool}, its optional-pointer twin, or {lo int64, hi int64, label string} (two columns of one type, so that a swap changes neither the per-position types nor the set of names); the batch schema is the declared one, or reordered (any of the 5 other permutations), narrowed (any one column dropped, or all), widened (an extra column at either end), type-perturbed (int64->int32, utf8->int64, bool->utf8), nullability flipped on any one column, one column renamed (ANY 1-byte name), or differing only in schema metadata; cells concrete
 func verifH_C07_schema_gate() {
 	verifC07Cells = nil
 	var t reflect.Type
-	optional := verifNondetBool("optional_family")
-	if optional {
-		t = reflect.TypeOf(verifC07Optional{})
-	} else {
+	family := verifChoice("family", 3)
+	switch family {
+	case 0:
 		t = reflect.TypeOf(verifC07Plain{})
+	case 1:
+		t = reflect.TypeOf(verifC07Optional{})
+	case 2:
+		t = reflect.TypeOf(verifC07Pair{})
 	}
 	desc := describeStruct(t)
 	verifAssert(desc.Err == nil && desc.Schema.NumFields() == 3, "declared schema")
@@ -301,6 +311,9 @@ func verifH_C07_schema_gate() {
 	}
 	decl := []arrow.Field{desc.Schema.Field(0), desc.Schema.Field(1), desc.Schema.Field(2)}
 	cols := []arrow.Array{verifC07Int64Col(4, false), verifC07StringCol("v", false), verifC07BoolCol(true, false)}
+	if family == 2 {
+		cols = []arrow.Array{verifC07Int64Col(4, false), verifC07Int64Col(9, false), verifC07StringCol("v", false)}
+	}
 	fields := append([]arrow.Field(nil), decl...)
 	var md *arrow.Metadata
 	same := false
@@ -334,9 +347,17 @@ func verifH_C07_schema_gate() {
 		case 0:
 			fields[0].Type, cols[0] = arrow.PrimitiveTypes.Int32, verifC07Int32Col(4, false)
 		case 1:
-			fields[1].Type, cols[1] = arrow.PrimitiveTypes.Int64, verifC07Int64Col(4, false)
+			if family == 2 {
+				fields[1].Type, cols[1] = arrow.BinaryTypes.String, verifC07StringCol("9", false)
+			} else {
+				fields[1].Type, cols[1] = arrow.PrimitiveTypes.Int64, verifC07Int64Col(4, false)
+			}
 		case 2:
-			fields[2].Type, cols[2] = arrow.BinaryTypes.String, verifC07StringCol("true", false)
+			if family == 2 {
+				fields[2].Type, cols[2] = arrow.PrimitiveTypes.Int64, verifC07Int64Col(1, false)
+			} else {
+				fields[2].Type, cols[2] = arrow.BinaryTypes.String, verifC07StringCol("true", false)
+			}
 		}
 	case 5: // nullability
 		k := verifChoice("flip", 3)
